@@ -417,6 +417,15 @@ void ares_event_thread_destroy(ares_channel_t *channel)
   channel->notify_pending_write_cb_data = NULL;
 }
 
+void ares_event_thread_wake_timeout(const ares_channel_t *channel)
+{
+  if (!(channel->optmask & ARES_OPT_EVENT_THREAD)) {
+    return;
+  }
+
+  ares_event_thread_wake(channel->sock_state_cb_data);
+}
+
 static const ares_event_sys_t *ares_event_fetch_sys(ares_evsys_t evsys)
 {
   switch (evsys) {
@@ -560,6 +569,11 @@ ares_status_t ares_event_thread_init(ares_channel_t *channel)
 }
 
 void ares_event_thread_destroy(ares_channel_t *channel)
+{
+  (void)channel;
+}
+
+void ares_event_thread_wake_timeout(const ares_channel_t *channel)
 {
   (void)channel;
 }
